@@ -344,6 +344,34 @@ VARIANTS = [
      "old": "        # response that gets sent back to the client if that cap name was requested.\n        region.register_proxy_cap(self.CAP_NAME)",
      "new": "        # response that gets sent back to the client if that cap name was requested.\n        url = region.register_proxy_cap(self.CAP_NAME)\n"
             "        logging.debug('mounted %s at %s', self.CAP_NAME, url)\n        return None"},
+    # ---- audit round (anchored on the fixed text: inapplicable until the fixes are committed)
+    {"name": "R12 region resolves to the first hit in index order again (reverts audit fix C16#1)", "file": REG, "expect": "C16.R12",
+     "old": "        for cap_url in sorted(self._caps_url_lookup.keys(), key=len, reverse=True):",
+     "new": "        for cap_url in self._caps_url_lookup.keys():"},
+    {"name": "R12 manager asks every session with consumption on", "file": SESS, "expect": "C16.R12",
+     "old": "            cap_data = session.resolve_cap(url, consume=False)", "new": "            cap_data = session.resolve_cap(url)"},
+    {"name": "P R12 region orders the index by negated length", "file": REG, "expect": "silent",
+     "old": "        for cap_url in sorted(self._caps_url_lookup.keys(), key=len, reverse=True):",
+     "new": "        for cap_url in sorted(self._caps_url_lookup.keys(), key=lambda granted: -len(granted)):"},
+    {"name": "R6 wrapper host hashed from the last Seed path segment again (reverts audit fix C16#2)", "file": REG, "expect": "C16.R6",
+     "old": '        seed_id = self.caps["Seed"][1].encode("utf8")', "new": '        seed_id = self.caps["Seed"][1].split("/")[-1].encode("utf8")'},
+    {"name": "P R6 whole Seed URL digested before it is hashed into the host", "file": REG, "expect": "silent",
+     "old": '        seed_id = self.caps["Seed"][1].encode("utf8")',
+     "new": '        seed_id = hashlib.md5(self.caps["Seed"][1].encode("utf8")).digest()[:8]'},
+    {"name": "R5 recorded names get the newest URL of their name again (reverts audit fix C16#3)", "file": HEM, "expect": "C16.R5",
+     "old": "parsed[cap_name] = region.proxy_cap_url(cap_name)", "new": "parsed[cap_name] = region.cap_urls[cap_name]"},
+    {"name": "R12 register_proxy_cap inspects the newest entry only again", "file": REG, "expect": "C16.R12",
+     "old": "        existing_url = self.proxy_cap_url(name)\n        if existing_url:\n            return existing_url\n",
+     "new": "        if name in self.caps and self.caps[name][0] == CapType.PROXY_ONLY:\n            return self.caps[name][1]\n"},
+    {"name": "P R5 recorded names re-added through the idempotent registration", "file": HEM, "expect": "silent",
+     "old": "parsed[cap_name] = region.proxy_cap_url(cap_name)", "new": "parsed[cap_name] = region.register_proxy_cap(cap_name)"},
+    {"name": "R5 only the first occurrence of a proxy-only name is stripped (reverts audit fix C16#5)", "file": HEM, "expect": "C16.R5",
+     "old": "                    while known_cap_name in parsed_seed:\n                        parsed_seed.remove(known_cap_name)\n",
+     "new": "                    parsed_seed.remove(known_cap_name)\n"},
+    {"name": "P R5 occurrences stripped in a loop that also logs", "file": HEM, "expect": "silent",
+     "old": "                    while known_cap_name in parsed_seed:\n                        parsed_seed.remove(known_cap_name)\n",
+     "new": "                    while known_cap_name in parsed_seed:\n                        LOG.debug('stripping %s', known_cap_name)\n"
+            "                        parsed_seed.remove(known_cap_name)\n"},
     # ---- documented limits
     {"name": "X only https URLs are tracked (validity filter is value-level)", "file": REG, "expect": "miss",
      "old": "cap_url.startswith('http')", "new": "cap_url.startswith('https')"},
